@@ -7,6 +7,7 @@ pub mod c02;
 #[cfg(feature = "ref")]
 pub mod c03;
 pub mod c04;
+pub mod c05;
 pub mod c08;
 pub mod c09;
 pub mod c10;
@@ -18,6 +19,7 @@ pub fn n_cases(ctx: &Ctx) -> u64 {
         #[cfg(feature = "ref")]
         "C03" => c03::n_cases(ctx),
         "C04" => c04::n_cases(ctx),
+        "C05" => c05::n_cases(ctx),
         "C08" => c08::n_cases(ctx),
         "C09" => c09::n_cases(ctx),
         "C10" => c10::n_cases(ctx),
@@ -32,6 +34,7 @@ pub fn run_case(ctx: &Ctx, idx: u64) -> Vec<CaseOut> {
         #[cfg(feature = "ref")]
         "C03" => c03::run_case(ctx, idx),
         "C04" => c04::run_case(ctx, idx),
+        "C05" => c05::run_case(ctx, idx),
         "C08" => c08::run_case(ctx, idx),
         "C09" => c09::run_case(ctx, idx),
         "C10" => c10::run_case(ctx, idx),
